@@ -80,8 +80,10 @@ BuiltinsBad(e) ==
          THEN "built-in ids do not resolve to their standard strings"
     ELSE ""
 
+\* the open finding is the 16-bit width and nothing else: of more than 65 000 fresh keys at least 65 000 got an id of their own
+\* (a table that wraps earlier - a narrower id type - is a different defect and is reported)
 KnownIntern(e, v) ==
-    IF e.op = "bulk" /\ e.hi - e.lo > 65000 THEN "K-C08-id-width-16-bit" ELSE ""
+    IF e.op = "bulk" /\ e.hi - e.lo > 65000 /\ e.newcls >= 65000 /\ e.newcls <= 65536 THEN "K-C08-id-width-16-bit" ELSE ""
 
 Init == i = 0 /\ T = EmptyT /\ bad = ""
 Next == /\ i < Len(Rec) /\ i' = i + 1
